@@ -102,9 +102,15 @@ package pubsub
 //@   property C14
 //@   cancellable
 
+// Cancel: the handler is taken off its topic (no further notifications reach it, nothing is
+// retained for it) and remembers that it was cancelled; other handlers stay registered.
 //@ func (*TopicEventHandler).Cancel
-//@   property C14
+//@   property C14 C18
 //@   cancellable
+//@   requires state: t != nil && t.topic != nil && t.topic.evtHandlers != nil
+//@   noframe
+//@   ensures deregistered: !(t in t.topic.evtHandlers) && t.err != nil
+//@   ensures others-stay: forall h *TopicEventHandler :: h != t ==> (h in t.topic.evtHandlers) == old(h in t.topic.evtHandlers)
 
 //@ func (*validation).sendMsgBlocking
 //@   property C14
